@@ -7,6 +7,12 @@ here from the literature); no formula of eko is reused.  Tolerances are *relativ
 the sum of the moduli of its terms (but not less than the largest entry the matrix of that order takes
 on N in {2,3,5,8}: at single nf the N=2 entries themselves cancel between powers of nf), a deviation of a
 single moment against the largest modulus the same function takes on N in {2,3,5,8}.
+
+Additions after the audit: (1) per-rule tolerances TOL_SIG (30 x the measured maximum of that rule where it is met far
+better than the class of its order; per-rule maxima are written to the evidence as max_rel/<signature>); (2) every rule
+at N=1 also as continuity "value used at N=1 = limit of the generic expression next to N=1" (dedicated N~1 branches);
+(3) the same rules on every smaller tower the public dispatchers build ((1,0), (2,0), QED (i,j), (4,1), slots 1-3 of the
+(4,0) towers); a failure that the full tower shows as well is left to the full tower's case (one defect = one signature).
 """
 
 import math
@@ -30,7 +36,9 @@ LEVEL_NOTE = (
     "the accuracy classes (exact 1e-11, NLO 3e-5 because of the parametrised Mellin transform g3, "
     "NNLO 3e-4 and FHMRUVV 1e-3 from the documented 0.1% of the x-space parametrisations) are read "
     "from docstrings/tests of the repository; N=1 is approached from the complex plane where the "
-    "implementation documents a non-physical pole"
+    "implementation documents a non-physical pole; rules that the code meets far better than the class of their order are "
+    "held to 30 x their measured maximum (TOL_SIG); the value used at N=1 is also compared with the limit of the generic "
+    "expression next to N=1; every smaller tower (order (k,0), (i,j)) is asked for the same rules"
 )
 FLOOR_NONTRIVIAL = 20
 
@@ -63,6 +71,48 @@ TOL = {
     # FHMRUVV: docstrings 'high-accuracy (0.1% or better) parametrizations'.       measured 9.9e-5
     "n3lo-fhmruvv": 1e-3,
 }
+# Per-rule tightening: (pattern on the signature, relative tolerance).  Filled from the per-signature maxima measured on the
+# unchanged tree (evidence: max_rel/<signature>), >= 30 x the maximum over nf, variations and both tiers; the class value
+# above stays the upper bound.
+import re as _re
+
+_EXACT = 1e-11  # rules that the code meets to rounding (measured <= 6e-14): never tighter than the "exact" class
+TOL_SIG = [
+    (_re.compile(p), t)
+    for p, t in [
+        # value at N=1 vs limit of the generic branch: measured <= 9.1e-13 (eko-N3LO valence part, 1/(N-1) cancellation: 5.6e-10)
+        (r"n3lo-eko\.(number/sector=valence|qed-number/valence)/continuity-at-N=1", 3e-8),
+        (r".*/continuity-at-N=1", 1e-10),
+        # analytically exact in the code, measured <= 6e-14
+        (r"ps\.qg-first-moment/order=2", _EXACT),  # 7.6e-16
+        (r"qed\.momentum/order=\((0,2|1,1)\)/column=(g|ph)", _EXACT),  # 8.1e-17
+        (r"qed\.momentum/order=\((2,0|3,0)\)/column=(Sdelta|ph)", _EXACT),  # 0
+        (r"qed\.number/valence/order=\((2,0|3,0)\)/entry=\((0,1|1,0)\)", _EXACT),  # 0
+        (r"n3lo-(eko|fhmruvv)\.qed-number/valence/entry=\((0,1|1,0)\)", _EXACT),  # 0
+        (r"n3lo-eko\.number/sector=minus", _EXACT),  # 6.0e-14
+        (r"n3lo-eko\.qed-number/sector=minus-(up|down)", _EXACT),  # 6.0e-14
+        (r"n3lo-eko\.qed-number/valence/entry=\(1,1\)", _EXACT),  # 7.4e-15
+        # eko's own N3LO: momentum imposed analytically
+        (r"n3lo-eko\.(momentum/column=quark|qed-momentum/column=S)", 3e-9),  # 5.4e-11
+        (r"n3lo-eko\.(momentum/column=gluon|qed-momentum/column=g)", 1e-7),  # 2.3e-9
+        # NLO-type rules where the g3 parametrisation enters weakly
+        (r"us\.momentum/order=2/column=quark", 1e-6),  # 2.4e-8
+        (r"(us|ut)\.number/order=2/sector=(minus|valence)", 1e-6),  # 3.2e-8
+        (r"ps\.axial-charge/order=2", 1e-6),  # 2.5e-8
+        (r"ut\.momentum/order=2/row=quark", 1e-6),  # 2.8e-8
+        (r"ut\.momentum/order=2/row=gluon", 3e-6),  # 9.4e-8
+        (r"qed\.momentum/order=\(0,2\)/column=(S|Sdelta)", 3e-6),  # 3.8e-8
+        (r"qed\.momentum/order=\(1,1\)/column=Sdelta", 3e-6),  # 9.6e-8
+        (r"qed\.momentum/order=\(1,1\)/column=S", 1e-5),  # 1.9e-7
+        (r"qed\.momentum/order=\(2,0\)/column=S", 1e-6),  # 2.4e-8
+        (r"qed\.number/minus-(up|down)/order=\(0,2\)", 3e-6),  # 8.5e-8
+        (r"qed\.number/minus-(up|down)/order=\(2,0\)", 1e-6),  # 2.5e-8
+        (r"qed\.number/valence/order=\(0,2\)/entry=\(\d,\d\)", 3e-6),  # 7.8e-8
+        (r"qed\.number/valence/order=\(2,0\)/entry=\((0,0|1,1)\)", 1e-6),  # 2.5e-8
+        # NNLO time-like momentum
+        (r"ut\.momentum/order=3/row=(quark|gluon)", 3e-5),  # 1.0e-6
+    ]
+]
 NREF = (2.0, 3.0, 5.0, 8.0)
 V0 = (0, 0, 0, 0, 0, 0, 0)
 EKO_NVAR = {"gg": 19, "gq": 15, "qg": 15, "qq": 6}  # documented number of variations of eko's own N3LO
@@ -77,6 +127,24 @@ def _cls(kind, i, j=0):
     return "g3"
 
 
+def _sigkey(sig):
+    """Signature without the tower coordinate (the same function value is expected in every tower)."""
+    import re
+
+    return re.sub(r"\[tower=[^\]]*\]", "", sig)
+
+
+def _tol(sig, cls):
+    """Relative tolerance of one rule: the accuracy class of its order, tightened per signature where the rule is met
+    much better on the unchanged tree (TOL_SIG: >= 30 x the measured maximum of that signature, both tiers)."""
+    t = TOL[cls]
+    k = _sigkey(sig)
+    for pat, v in TOL_SIG:
+        if pat.fullmatch(k):
+            return min(t, v)
+    return t
+
+
 class _Acc:
     """Collects oracle evaluations of one case."""
 
@@ -86,7 +154,7 @@ class _Acc:
         self.maxrel = {}
 
     def zero(self, sig, cls, dev, scale, what):
-        """|dev| <= TOL[cls] * scale ."""
+        """|dev| <= tolerance(sig, cls) * scale ."""
         self.n += 1
         scale = float(scale)
         dev = abs(complex(dev))
@@ -94,13 +162,25 @@ class _Acc:
             self.res.fail(sig + "/not-finite", f"{what}: deviation={dev} scale={scale}")
             return
         rel = dev / scale
-        key = "max_rel_" + cls
-        self.maxrel[key] = max(self.maxrel.get(key, 0.0), rel)
-        if rel > TOL[cls]:
+        tol = _tol(sig, cls)
+        for key, val in (("max_rel_" + cls, rel), ("max_rel/" + _sigkey(sig), rel), ("max_rel_over_tolerance", rel / tol)):
+            self.maxrel[key] = max(self.maxrel.get(key, 0.0), val)
+        if rel > tol:
             self.res.fail(
                 sig,
-                f"{what}: |deviation|={dev:.6e} scale={scale:.6e} relative={rel:.3e} > {TOL[cls]:g} ({cls})",
+                f"{what}: |deviation|={dev:.6e} scale={scale:.6e} relative={rel:.3e} > {tol:g} ({cls}"
+                + ("" if tol == TOL[cls] else ", tightened for this rule") + ")",
             )
+
+    def continuous(self, sig, cls, f, val, scale, what):
+        """The value used for a rule at N=1 (possibly from a dedicated N~1 branch) is the limit of the generic
+        expression: |val - mean of f over the six directions at |N-1| = 1e-3| <= tolerance * scale."""
+        try:
+            lim = _limit_N(f, 1.0, delta=CONT_DELTA, m=6)
+        except Exception as e:  # noqa
+            self.res.fail(sig + "/raises", f"{what}: {type(e).__name__}: {e} at |N-1|={CONT_DELTA}")
+            return
+        self.zero(sig, cls, np.max(np.abs(np.asarray(val) - np.asarray(lim))), scale, f"{what}: value at N=1 {val} vs limit of the generic branch {lim}")
 
 
 def _call(res, sig, f, *a):
@@ -111,34 +191,44 @@ def _call(res, sig, f, *a):
         return None
 
 
-def _limit_N(f, n0, delta=1e-6):
-    """Mean over the three cube-root-of-unity directions: f(n0) + O(delta^3) for analytic f."""
-    w = [complex(math.cos(2 * math.pi * k / 3), math.sin(2 * math.pi * k / 3)) for k in range(3)]
-    return sum(f(n0 + delta * wk) for wk in w) / 3.0
+CONT_DELTA = 1e-3  # outside the 1e-5 windows of the dedicated N~1 branches
+
+
+def _limit_N(f, n0, delta=1e-6, m=3):
+    """Mean over the m directions of the m-th roots of unity: f(n0) + O(delta^m) for analytic f."""
+    w = [complex(math.cos(2 * math.pi * k / m), math.sin(2 * math.pi * k / m)) for k in range(m)]
+    return sum(f(n0 + delta * wk) for wk in w) / float(m)
 
 
 # ----------------------------------------------------------------------------- evaluators
 def _qcd_like(case, res, acc):
-    """unpolarised space-like / time-like / polarised, orders 1..3."""
+    """unpolarised space-like / time-like / polarised: the tower of order (K,0), K = 3 (default) or 1, 2."""
     kind, nf = case["kind"], case["nf"]
+    KT = int(case.get("order", 3))  # order of the tower that is requested
+    K = min(KT, 3)  # slots looked at here (slot 4 of a (4,0) tower: _n3lo)
+    o = (KT, 0)
     if kind == "us":
         import ekore.anomalous_dimensions.unpolarized.space_like as ad
 
-        sing = lambda N: ad.gamma_singlet((3, 0), N, nf, V0)
-        ns = lambda mode, N: ad.gamma_ns((3, 0), mode, N, nf, V0)
+        fhm = case.get("variant", "fhmruvv") == "fhmruvv"
+        sing_full = lambda N: ad.gamma_singlet(o, N, nf, V0, fhm)
+        sing = lambda N: sing_full(N)[:K]
+        ns = lambda mode, N: ad.gamma_ns(o, mode, N, nf, V0, fhm)[:K]
     elif kind == "ut":
         import ekore.anomalous_dimensions.unpolarized.time_like as ad
 
-        sing = lambda N: ad.gamma_singlet((3, 0), N, nf)
-        ns = lambda mode, N: ad.gamma_ns((3, 0), mode, N, nf)
+        sing = sing_full = lambda N: ad.gamma_singlet(o, N, nf)
+        ns = lambda mode, N: ad.gamma_ns(o, mode, N, nf)
     else:
         import ekore.anomalous_dimensions.polarized.space_like as ad
 
-        sing = lambda N: ad.gamma_singlet((3, 0), N, nf)
-        ns = lambda mode, N: ad.gamma_ns((3, 0), mode, N, nf)
-    base = f"{kind}"
+        sing = sing_full = lambda N: ad.gamma_singlet(o, N, nf)
+        ns = lambda mode, N: ad.gamma_ns(o, mode, N, nf)
+    if kind != "us" and KT > 3:
+        raise ValueError("time-like and polarised towers end at order 3")
+    base = f"{kind}" if KT == 3 else f"{kind}[tower=({KT},0)" + (f",{case['variant']}" if KT == 4 else "") + "]"
     # reference scales per order
-    sref = np.max([np.abs(sing(N)).reshape(3, -1).max(axis=1) for N in NREF], axis=0)
+    sref = np.max([np.abs(sing(N)).reshape(K, -1).max(axis=1) for N in NREF], axis=0)
 
     def nsref(mode):
         return np.max([np.abs(ns(mode, N)) for N in NREF], axis=0)
@@ -146,7 +236,10 @@ def _qcd_like(case, res, acc):
     if kind in ("us", "ut"):
         g = _call(res, f"{base}.gamma_singlet/N=2", sing, 2.0)
         if g is not None:
-            for k in range(3):
+            nfull = len(sing_full(3.0))
+            if nfull != KT:
+                res.fail(f"{base}.gamma_singlet/shape", f"tower of order {o} has {nfull} entries")
+            for k in range(min(K, len(g))):
                 m = g[k]
                 if kind == "us":
                     # d/dt (Sigma + g) = 0 for any input: column sums of [[qq,qg],[gq,gg]]
@@ -175,16 +268,18 @@ def _qcd_like(case, res, acc):
             try:
                 v = ns(mode, 1.0)
             except ZeroDivisionError as e:
-                res.fail(
-                    f"{base}.gamma_ns/mode={name}/N=1/raises",
-                    f"gamma_ns((3,0), {mode}, 1.0, nf={nf}) raises ZeroDivisionError({e}); the limit "
-                    "N->1 exists (checked next) and the source carries a dedicated N=1 branch",
-                )
+                # slot 4 of eko's own N3LO valence tower: documented non-physical pole at N=1 (see _n3lo_ns) -> limit
+                if not (kind == "us" and KT == 4 and not fhm and name == "valence"):
+                    res.fail(
+                        f"{base}.gamma_ns/mode={name}/N=1/raises",
+                        f"gamma_ns({o}, {mode}, 1.0, nf={nf}) raises ZeroDivisionError({e}); the limit "
+                        "N->1 exists (checked next) and the source carries a dedicated N=1 branch",
+                    )
                 v = _limit_N(lambda N: ns(mode, N), 1.0)
             except Exception as e:  # noqa
                 res.fail(f"{base}.gamma_ns/mode={name}/N=1/raises", f"{type(e).__name__}: {e}")
                 continue
-            for k in range(3):
+            for k in range(K):
                 acc.zero(
                     f"{base}.number/order={k+1}/sector={name}",
                     _cls(kind, k + 1),
@@ -192,11 +287,31 @@ def _qcd_like(case, res, acc):
                     sr[k],
                     f"nf={nf} gamma_ns^({k})(N=1) = {v[k]}",
                 )
+            if CONT_DELTA:
+                try:
+                    lim = _limit_N(lambda N: ns(mode, N), 1.0, delta=CONT_DELTA, m=6)
+                except Exception as e:  # noqa
+                    res.fail(f"{base}.gamma_ns/mode={name}/near-N=1/raises", f"{type(e).__name__}: {e}")
+                    continue
+                for k in range(K):
+                    acc.zero(
+                        f"{base}.number/order={k+1}/sector={name}/continuity-at-N=1",
+                        _cls(kind, k + 1),
+                        v[k] - lim[k],
+                        sr[k],
+                        f"nf={nf} gamma_ns^({k}): value at N=1 {v[k]} vs limit of the generic branch (|N-1|={CONT_DELTA}) {lim[k]}",
+                    )
     else:
         # polarised: first moments
         g = _call(res, f"{base}.gamma_singlet/N=1", sing, 1.0)
         if g is not None:
-            for k in range(3):
+            nfull = len(sing_full(3.0))
+            if nfull != KT:
+                res.fail(f"{base}.gamma_singlet/shape", f"tower of order {o} has {nfull} entries")
+            lim = None
+            if CONT_DELTA:
+                lim = _call(res, f"{base}.gamma_singlet/near-N=1", _limit_N, sing, 1.0, CONT_DELTA, 6)
+            for k in range(min(K, len(g))):
                 m = g[k]
                 acc.zero(
                     f"{base}.qg-first-moment/order={k+1}",
@@ -213,10 +328,19 @@ def _qcd_like(case, res, acc):
                     max(abs(bk), sref[k]),
                     f"nf={nf} gamma_gg^({k})(N=1) = {m[1,1]} , -beta_{k} = {-bk}",
                 )
+                if lim is not None:
+                    for (a, b), nm in (((0, 1), "qg-first-moment"), ((1, 1), "gg-first-moment-vs-beta")):
+                        acc.zero(
+                            f"{base}.{nm}/order={k+1}/continuity-at-N=1",
+                            _cls(kind, k + 1),
+                            m[a, b] - lim[k][a, b],
+                            max(abs(bk), sref[k]) if a == 1 else sref[k],
+                            f"nf={nf} gamma^({k})[{a},{b}]: value at N=1 {m[a,b]} vs limit of the generic branch (|N-1|={CONT_DELTA}) {lim[k][a,b]}",
+                        )
         sr = nsref(10101)
         v = _call(res, f"{base}.gamma_ns/N=1", ns, 10101, 1.0)
         if v is not None:
-            for k in range(3):
+            for k in range(K):
                 acc.zero(
                     f"{base}.axial-charge/order={k+1}",
                     _cls(kind, k + 1),
@@ -224,64 +348,110 @@ def _qcd_like(case, res, acc):
                     sr[k],
                     f"nf={nf} polarised gamma_ns+^({k})(N=1) = {v[k]}",
                 )
+            if CONT_DELTA:
+                lim = _call(res, f"{base}.gamma_ns/near-N=1", _limit_N, lambda N: ns(10101, N), 1.0, CONT_DELTA, 6)
+                for k in range(K if lim is not None else 0):
+                    acc.zero(
+                        f"{base}.axial-charge/order={k+1}/continuity-at-N=1",
+                        _cls(kind, k + 1),
+                        v[k] - lim[k],
+                        sr[k],
+                        f"nf={nf} polarised gamma_ns+^({k}): value at N=1 {v[k]} vs limit of the generic branch {lim[k]}",
+                    )
+
+
+def _qed_filled(order):
+    I, J = order
+    return [(i, j) for (i, j) in ((1, 0), (2, 0), (3, 0), (0, 1), (1, 1), (0, 2)) if i <= I and j <= J]
 
 
 def _qed(case, res, acc):
+    """QED grids of order (I,J): (3,2) by default, or one of the smaller towers."""
     import ekore.anomalous_dimensions.unpolarized.space_like as ad
 
     nf = case["nf"]
-    order = (3, 2)
-    g = _call(res, "qed.gamma_singlet_qed/N=2", ad.gamma_singlet_qed, order, 2.0, nf, V0)
+    order = tuple(case.get("order", (3, 2)))
+    I, J = order
+    filled = _qed_filled(order)
+    base = "qed" if order == (3, 2) else f"qed[tower=({I},{J})]"
+    g = _call(res, f"{base}.gamma_singlet_qed/N=2", ad.gamma_singlet_qed, order, 2.0, nf, V0)
     names = ("g", "ph", "S", "Sdelta")
     if g is not None:
+        if g.shape[:2] != (I + 1, J + 1):
+            res.fail(f"{base}.gamma_singlet_qed/shape", f"grid of order {order} has shape {g.shape}")
+            return
         gref = np.max([np.abs(ad.gamma_singlet_qed(order, N, nf, V0)).max(axis=(2, 3)) for N in NREF], axis=0)
-        for i in range(4):
-            for j in range(3):
-                if (i, j) not in ((1, 0), (2, 0), (3, 0), (0, 1), (1, 1), (0, 2)):
+        for i in range(I + 1):
+            for j in range(J + 1):
+                if (i, j) not in filled:
                     if np.abs(g[i, j]).max() != 0:
-                        res.fail(f"qed.singlet/order=({i},{j})/not-empty", f"nf={nf} {g[i,j]}")
+                        res.fail(f"{base}.singlet/order=({i},{j})/not-empty", f"nf={nf} {g[i,j]}")
                     continue
                 m = g[i, j]
                 for col in range(4):
                     acc.zero(
-                        f"qed.momentum/order=({i},{j})/column={names[col]}",
+                        f"{base}.momentum/order=({i},{j})/column={names[col]}",
                         _cls("qed", i, j),
                         m[0, col] + m[1, col] + m[2, col],
                         max(abs(m[0, col]) + abs(m[1, col]) + abs(m[2, col]), gref[i, j]),
                         f"nf={nf} N=2 gamma^({i},{j})[(g,ph,S), {names[col]}] = {m[:3, col]}",
                     )
-    gv1 = _call(res, "qed.gamma_valence_qed/N=1", ad.gamma_valence_qed, order, 1.0, nf, V0)
+    fv = lambda N: ad.gamma_valence_qed(order, N, nf, V0)
+    gv1 = _call(res, f"{base}.gamma_valence_qed/N=1", fv, 1.0)
     if gv1 is not None:
-        ref = np.max([np.abs(ad.gamma_valence_qed(order, N, nf, V0)).max(axis=(2, 3)) for N in NREF], axis=0)
-        for i in range(4):
-            for j in range(3):
+        ref = np.max([np.abs(fv(N)).max(axis=(2, 3)) for N in NREF], axis=0)
+        lim = _call(res, f"{base}.gamma_valence_qed/near-N=1", _limit_N, fv, 1.0, CONT_DELTA, 6)
+        for i in range(I + 1):
+            for j in range(J + 1):
                 if ref[i, j] == 0:
+                    if (i, j) in filled:
+                        res.fail(f"{base}.valence/order=({i},{j})/empty", f"nf={nf}: slot ({i},{j}) of the valence grid of order {order} vanishes on N={NREF}")
                     continue
                 for a in range(2):
                     for b in range(2):
                         acc.zero(
-                            f"qed.number/valence/order=({i},{j})/entry=({a},{b})",
+                            f"{base}.number/valence/order=({i},{j})/entry=({a},{b})",
                             _cls("qed", i, j),
                             gv1[i, j][a, b],
                             ref[i, j],
                             f"nf={nf} gamma_V^({i},{j})(N=1)[{a},{b}] = {gv1[i,j][a,b]}",
                         )
+                        if lim is not None:
+                            acc.zero(
+                                f"{base}.number/valence/order=({i},{j})/entry=({a},{b})/continuity-at-N=1",
+                                _cls("qed", i, j),
+                                gv1[i, j][a, b] - lim[i, j][a, b],
+                                ref[i, j],
+                                f"nf={nf} gamma_V^({i},{j})[{a},{b}]: value at N=1 {gv1[i,j][a,b]} vs limit of the generic branch {lim[i,j][a,b]}",
+                            )
     for mode, name in ((10202, "minus-up"), (10203, "minus-down")):
-        v = _call(res, "qed.gamma_ns_qed/N=1", ad.gamma_ns_qed, order, mode, 1.0, nf, V0)
+        fm = lambda N: ad.gamma_ns_qed(order, mode, N, nf, V0)
+        v = _call(res, f"{base}.gamma_ns_qed/N=1", fm, 1.0)
         if v is None:
             continue
-        ref = np.max([np.abs(ad.gamma_ns_qed(order, mode, N, nf, V0)) for N in NREF], axis=0)
-        for i in range(4):
-            for j in range(3):
+        ref = np.max([np.abs(fm(N)) for N in NREF], axis=0)
+        lim = _call(res, f"{base}.gamma_ns_qed/near-N=1", _limit_N, fm, 1.0, CONT_DELTA, 6)
+        for i in range(I + 1):
+            for j in range(J + 1):
                 if ref[i, j] == 0:
+                    if (i, j) in filled:
+                        res.fail(f"{base}.{name}/order=({i},{j})/empty", f"nf={nf}: slot ({i},{j}) of the ns grid of order {order} vanishes on N={NREF}")
                     continue
                 acc.zero(
-                    f"qed.number/{name}/order=({i},{j})",
+                    f"{base}.number/{name}/order=({i},{j})",
                     _cls("qed", i, j),
                     v[i, j],
                     ref[i, j],
                     f"nf={nf} gamma_ns^({i},{j})(N=1) = {v[i,j]}",
                 )
+                if lim is not None:
+                    acc.zero(
+                        f"{base}.number/{name}/order=({i},{j})/continuity-at-N=1",
+                        _cls("qed", i, j),
+                        v[i, j] - lim[i, j],
+                        ref[i, j],
+                        f"nf={nf} gamma_ns^({i},{j}): value at N=1 {v[i,j]} vs limit of the generic branch {lim[i,j]}",
+                    )
 
 
 def _n3lo(case, res, acc):
@@ -329,20 +499,22 @@ def _n3lo(case, res, acc):
     if isinstance(part, list):
         return
     # the same slot of the QED grid (uniform variations)
-    for v in range(0, 3):
-        t = (v,) * 7
-        g = _call(res, f"{base}.gamma_singlet_qed/N=2", ad.gamma_singlet_qed, (4, 2), 2.0, nf, t, fh)
-        if g is None:
-            break
-        m = g[4, 0]
-        for col, name in ((0, "g"), (2, "S")):
-            acc.zero(
-                f"{base}.qed-momentum/column={name}",
-                cls,
-                m[0, col] + m[1, col] + m[2, col],
-                max(abs(m[0, col]) + abs(m[1, col]) + abs(m[2, col]), sref),
-                f"nf={nf} variation={t} N=2 gamma^(4,0)[(g,ph,S), {name}] = {m[:3, col]}",
-            )
+    for qo in ((4, 2), (4, 1)):
+        tw = "" if qo == (4, 2) else "[tower=(4,1)]"
+        for v in range(0, 3):
+            t = (v,) * 7
+            g = _call(res, f"{base}{tw}.gamma_singlet_qed/N=2", ad.gamma_singlet_qed, qo, 2.0, nf, t, fh)
+            if g is None:
+                break
+            m = g[4, 0]
+            for col, name in ((0, "g"), (2, "S")):
+                acc.zero(
+                    f"{base}{tw}.qed-momentum/column={name}",
+                    cls,
+                    m[0, col] + m[1, col] + m[2, col],
+                    max(abs(m[0, col]) + abs(m[1, col]) + abs(m[2, col]), sref),
+                    f"nf={nf} order={qo} variation={t} N=2 gamma^(4,0)[(g,ph,S), {name}] = {m[:3, col]}",
+                )
     _n3lo_ns(case, res, acc, ad, fh, cls, base, tup)
 
 
@@ -371,6 +543,7 @@ def _n3lo_ns(case, res, acc, ad, fh, cls, base, tup):
                 sr,
                 f"nf={nf} variation={t} gamma_ns^(3)(N->1) = {val}",
             )
+            acc.continuous(f"{base}.number/sector={name}/continuity-at-N=1", cls, f, val, sr, f"nf={nf} variation={t} gamma_ns^(3)")
     # QED non-singlet minus sectors, slot (4,0) of the (4,1) and (4,2) towers (both N3LO variants)
     for qo in ((4, 1), (4, 2)):
         for mode, name in ((10202, "minus-up"), (10203, "minus-down")):
@@ -393,29 +566,33 @@ def _n3lo_ns(case, res, acc, ad, fh, cls, base, tup):
                     sr,
                     f"nf={nf} order={qo} variation={t} gamma_ns_qed^(4,0)(N->1) = {val}",
                 )
-    # QED valence grid, slot (4,0)
-    for v in range(3 if fh else 1):
-        t = (v,) * 7
-        f = lambda N: ad.gamma_valence_qed((4, 2), N, nf, t, fh)[4, 0]
-        sr = max(np.abs(f(N)).max() for N in NREF)
-        try:
-            val = f(1.0)
-        except ZeroDivisionError:
-            if fh:
-                res.fail(f"{base}.gamma_valence_qed/N=1/raises", f"ZeroDivisionError nf={nf} variation={t}")
-            val = _limit_N(f, 1.0)
-        except Exception as e:  # noqa
-            res.fail(f"{base}.gamma_valence_qed/N=1/raises", f"{type(e).__name__}: {e}")
-            continue
-        for a in range(2):
-            for b in range(2):
-                acc.zero(
-                    f"{base}.qed-number/valence/entry=({a},{b})",
-                    cls,
-                    val[a, b],
-                    sr,
-                    f"nf={nf} variation={t} gamma_V^(4,0)(N->1)[{a},{b}] = {val[a,b]}",
-                )
+                acc.continuous(f"{base}.qed-number/sector={name}/continuity-at-N=1", cls, fq, val, sr, f"nf={nf} order={qo} variation={t} gamma_ns_qed^(4,0)")
+    # QED valence grid, slot (4,0), of both towers that contain it
+    for qo in ((4, 2), (4, 1)):
+        tw = "" if qo == (4, 2) else "[tower=(4,1)]"
+        for v in range(3 if fh else 1):
+            t = (v,) * 7
+            f = lambda N: ad.gamma_valence_qed(qo, N, nf, t, fh)[4, 0]
+            sr = max(np.abs(f(N)).max() for N in NREF)
+            try:
+                val = f(1.0)
+            except ZeroDivisionError:
+                if fh:
+                    res.fail(f"{base}{tw}.gamma_valence_qed/N=1/raises", f"ZeroDivisionError nf={nf} variation={t}")
+                val = _limit_N(f, 1.0)
+            except Exception as e:  # noqa
+                res.fail(f"{base}{tw}.gamma_valence_qed/N=1/raises", f"{type(e).__name__}: {e}")
+                continue
+            for a in range(2):
+                for b in range(2):
+                    acc.zero(
+                        f"{base}{tw}.qed-number/valence/entry=({a},{b})",
+                        cls,
+                        val[a, b],
+                        sr,
+                        f"nf={nf} order={qo} variation={t} gamma_V^(4,0)(N->1)[{a},{b}] = {val[a,b]}",
+                    )
+            acc.continuous(f"{base}{tw}.qed-number/valence/continuity-at-N=1", cls, f, val, sr, f"nf={nf} order={qo} variation={t} gamma_V^(4,0)")
 
 
 MEAN_N = [1.0, 2.0, 3.0, 4.5, 10.0, 37.0, complex(2.0, 3.0), complex(1.5, -2.0), complex(0.7, 10.0), complex(20.0, 40.0), complex(1.0, 1e-3)]
@@ -480,15 +657,38 @@ def evaluate(case):
         _fh_mean(case, res, acc)
     else:
         raise ValueError(kind)
+    shared = 0
+    if "order" in case and kind in ("us", "ut", "ps", "qed"):
+        # one defect = one signature: a rule that the full tower ((3,0) | (3,2)) breaks in the same way is a defect of the
+        # function itself and is reported by the full tower's own case; a smaller tower reports only what is wrong in it
+        # although the full tower meets the rule (slot filled from the wrong function, slot left empty, ...)
+        full = {k: v for k, v in case.items() if k not in ("order", "variant")}
+        res0 = Result()
+        (_qed if kind == "qed" else _qcd_like)(full, res0, _Acc(res0))
+        broken = {_sigkey(f.signature) for f in res0.fails}
+        shared = sum(_sigkey(f.signature) in broken for f in res.fails)
+        res.fails = [f for f in res.fails if _sigkey(f.signature) not in broken]
+    if kind == "n3lo":
+        # the (4,1) towers are looked at in the same case as the (4,2) towers: same rule
+        plain = {f.signature for f in res.fails if "[tower=" not in f.signature}
+        shared = sum("[tower=" in f.signature and _sigkey(f.signature) in plain for f in res.fails)
+        res.fails = [f for f in res.fails if "[tower=" not in f.signature or _sigkey(f.signature) not in plain]
     res.info = dict(acc.maxrel)
     res.info["rules"] = acc.n
+    res.info["failures_left_to_the_full_tower_case"] = shared
     if kind == "fhmruvv-mean":
         res.info["points_with_distinct_up_down"] = getattr(acc, "spread", 0)
         res.nontrivial = getattr(acc, "spread", 0) > 0
     else:
         res.nontrivial = acc.n > 0
-    res.outcome = f"{kind}{'-' + case['variant'] if kind == 'n3lo' else ''}:{'fail' if res.fails else 'ok'}:rules={acc.n}"
+    tower = ""
+    if "order" in case:
+        tower = "@" + ",".join(map(str, case["order"] if isinstance(case["order"], list) else [case["order"], 0]))
+    res.outcome = f"{kind}{tower}{'-' + case['variant'] if 'variant' in case else ''}:{'fail' if res.fails else 'ok'}:rules={acc.n}"
     return res
+
+
+QED_TOWERS = [(1, 1), (1, 2), (2, 1), (2, 2), (3, 1)]  # besides (3,2); (4,1), (4,2) are looked at by the N3LO cases
 
 
 def run(ctx):
@@ -504,22 +704,42 @@ def run(ctx):
     for nf in (3, 4, 5):
         cases.append({"kind": "n3lo", "variant": "fhmruvv", "nf": nf})
         cases.append({"kind": "fhmruvv-mean", "nf": nf})
+    # "at every perturbative order": the same rules on the towers the public entry points build for every smaller order
+    # (the dispatchers fill slot k only if order >= k), and on the lower slots of the N3LO towers
+    for nf in (3, 4, 5, 6):
+        for kind in ("us", "ut", "ps"):
+            for k in (1, 2):
+                cases.append({"kind": kind, "nf": nf, "order": k})
+        for o in QED_TOWERS:
+            cases.append({"kind": "qed", "nf": nf, "order": list(o)})
+        cases.append({"kind": "us", "nf": nf, "order": 4, "variant": "eko"})
+        if nf <= 5:
+            cases.append({"kind": "us", "nf": nf, "order": 4, "variant": "fhmruvv"})
     results = ctx.run_cases(cases, evaluate)
     ctx.extra["rules_evaluated"] = sum((r[1][3] or {}).get("rules", 0) for r in results)
+    ctx.extra["distinct_rule_signatures"] = len({k for r in results for k in (r[1][3] or {}) if k.startswith("max_rel/")})
     ctx.rule = (
         "complete product: kinds {unpolarised space-like, time-like, polarised} x nf 3-6 x orders 1-3 x "
         "{both momentum rules at N=2, quark number of minus and valence at N=1 | polarised: qg, gg+beta_k, "
         "ns+ at N=1}; QED grids of order (3,2) x nf 3-6 x all six filled slots x 4 momentum columns + "
         "4 valence entries + 2 minus sectors; N3LO: eko variant nf 3-6 with the complete products of the "
         "variation indices that enter one momentum column (7x16 quark, 16x20 gluon), FHMRUVV nf 3-5 with "
-        "3x3 per column and 3 per non-singlet sector, both also through the (4,0) slot of the QED grids; "
-        "FHMRUVV central=mean for 7 functions x nf 3-5 x 11 N (real, complex, near N=1); the same set in "
-        "both tiers (total cost ~2 s); non-trivial = at least one rule evaluated (fhmruvv-mean: up and "
-        "down variations really differ)"
+        "3x3 per column and 3 per non-singlet sector, both also through the (4,0) slot of the QED grids (4,1) and (4,2); "
+        "FHMRUVV central=mean for 7 functions x nf 3-5 x 11 N (real, complex, near N=1); "
+        "the same rules on every smaller tower the public entry points build: QCD towers (1,0), (2,0) of the three kinds, "
+        f"QED towers {QED_TOWERS}, and slots 1-3 of the (4,0) towers of both N3LO variants (nf 3-6 | 3-5); "
+        "every rule at N=1 additionally as continuity: value used at N=1 (dedicated N~1 branch where there is one) = mean of the "
+        f"generic expression over six directions at |N-1|={CONT_DELTA:g}; the same set in "
+        "both tiers; non-trivial = at least one rule evaluated (fhmruvv-mean: up and "
+        "down variations really differ); a filled slot that vanishes on N in {2,3,5,8} is a failure (vacuity)"
     )
     ctx.assumptions += [
         "sum rules are moment statements: decided at N=2 and N=1 exactly (N->1 as the mean over three complex directions at |N-1|=1e-6 where the implementation has a documented removable pole)",
-        "relative tolerance classes: " + ", ".join(f"{k}={v:g}" for k, v in TOL.items()),
+        "relative tolerance classes: " + ", ".join(f"{k}={v:g}" for k, v in TOL.items())
+        + f"; tightened per rule (TOL_SIG, {len(TOL_SIG)} patterns, >= 30 x the maximum measured for that rule, never below 1e-11) "
+        "where a rule is met much better than its class; per-rule measured maxima: max_rel/<signature>, worst ratio to the "
+        "applied tolerance: max_rel_over_tolerance",
         "time-like momentum rule in the fragmentation convention: rows of the matrix acting on (D_Sigma, D_g) are orthogonal to (2 nf, 1)",
         "FHMRUVV singlet is refused for nf=6 by the implementation (documented); its non-singlet part is checked for nf 3-5 as in the quantifier",
+        "continuity at N=1: the six-direction mean is exact up to O(|N-1|^6) for a function analytic in the unit disc around N=1",
     ]
